@@ -500,12 +500,18 @@ where
                 RxcWindowResponse::Rx(sz, q, timeout_fut) => {
                     debug!("RXC window received {} bytes.", sz);
                     self.radio_buffer.set_pos(sz);
-                    let mac_response = self.mac.handle_rxc::<N, D>(
-                        &mut self.radio_buffer,
-                        &mut self.downlink,
-                        q.snr(),
-                        &rx_config.rf,
-                    )?;
+                    // While there is no session to receive for (waiting for the windows of a
+                    // join request) a frame heard here cannot be ours: it is not accepted and
+                    // must not end the procedure that is waiting for its window.
+                    let mac_response = self
+                        .mac
+                        .handle_rxc::<N, D>(
+                            &mut self.radio_buffer,
+                            &mut self.downlink,
+                            q.snr(),
+                            &rx_config.rf,
+                        )
+                        .unwrap_or(mac::Response::NoUpdate);
                     match Self::handle_mac_response(
                         &mut self.radio_buffer,
                         &mut self.mac,
